@@ -4,8 +4,9 @@
 //	hydfile run <config.json> <trace.ndjson>
 //
 // config: {"seed":N, "mode":"plain"|"small"|"crash"|"fault"|"bulk", "level":"fw"|"ch"|"both",
-//          "count":N, "maxops":N, "bad":percent, "big":bool, "faults":1|2, "maxplace":N,
-//          "replay": <history object, optional>}
+//
+//	"count":N, "maxops":N, "bad":percent, "big":bool, "faults":1|2, "maxplace":N,
+//	"replay": <history object, optional>}
 //
 // Every history becomes one block of ndjson lines starting with a "reset" line.  Keys and payloads are
 // interned to small ids (per history); maps are arrays of NKeys value ids (0 = absent).
